@@ -2027,3 +2027,39 @@ func (c *Ctx) rulesR3nilfield() {
 	}
 	c.check(tested, "C18.nilslot", "newHandlerCallStruct rejects nil handler fields", fb[0].Pos(), "the FieldByName result is used without an IsNil test")
 }
+
+func (c *Ctx) rulesR3whentime() {
+	c.rule("C06.ticked", "Subscriptions.ProcessWhenTime finds the ticked states by walking the CURRENT clock (Subscriptions.clock) and comparing with the snapshot, not by walking the snapshot: a state added by SetSchema has no entry in the before-snapshot until its first tick, so a walk over the snapshot never sees that tick and WhenTime/WhenTicks on the new state stay open")
+	f := c.fnOpt(pm + ":Subscriptions.ProcessWhenTime")
+	fClock := c.field(pm, "Subscriptions", "clock")
+	if f == nil || fClock == nil {
+		return
+	}
+	var before ssa.Value
+	for _, p := range f.Params {
+		if _, ok := p.Type().Underlying().(*types.Map); ok {
+			before = p
+		}
+	}
+	n := 0
+	for _, b := range f.Blocks {
+		for _, ins := range b.Instrs {
+			rg, ok := ins.(*ssa.Range)
+			if !ok {
+				continue
+			}
+			if _, isMap := rg.X.Type().Underlying().(*types.Map); !isMap {
+				continue
+			}
+			// only the clock-typed maps (name -> tick)
+			if rg.X != before && loadOfField(rg.X) != fClock {
+				continue
+			}
+			n++
+			c.check(loadOfField(rg.X) == fClock, "C06.ticked", fmt.Sprintf("ProcessWhenTime: clock walk#%d ranges over the current clock", n), ins.Pos(), "the walk ranges over the before-snapshot: states without an entry there (added by SetSchema) are never checked")
+		}
+	}
+	if n < 1 {
+		c.undecided("C06.ticked: ProcessWhenTime has no walk over a clock map")
+	}
+}
